@@ -3,7 +3,7 @@
    covered by an absent chunk, for ANY independently drawn chunkings - is C06's flags_model_is_spec, used unchanged. *)
 From Coq Require Import ZArith List Bool String Lia.
 From KV Require Import Base.Sx Base.Str Gen.Generated Model.Prune Model.LostMap Model.Flags Model.FlagsV4 Model.FlagsLost.
-From KV Require Import Proofs.FlagsP Proofs.FlagsV4P Proofs.PruneP Proofs.LostMapP Proofs.LostMapNdP Proofs.C06P.
+From KV Require Import Proofs.FlagsP Proofs.FlagsV4P Proofs.PruneP Proofs.LostMapP Proofs.LostMapNdP Proofs.FlagsLostBaseP.
 Import ListNotations.
 Open Scope Z_scope.
 
